@@ -1,6 +1,8 @@
 """Symbolic interpreter over the real ASTs (decision-replay path exploration).  DESIGN.md 2.1-2.3."""
 from __future__ import annotations
 
+import os
+
 import ast
 import copy
 import time
@@ -52,6 +54,9 @@ class Frame:
         self.module = module
         self.cls = cls
         self.loop_ordinal = 0
+
+
+_NO_RESET = bool(os.environ.get("PYVC_DEBUG_NO_MODULE_RESET"))     # diagnosis only: never set in a registered check
 
 
 class Path:
@@ -277,6 +282,9 @@ class Interp:
             p = Path(prefix)
             self.path = p
             zu.ORACLE[0] = p.entails
+            zu.UNIQUE[0] = p.unique_int
+            if not _NO_RESET:
+                self._reset_module_state()
             zu.NTH_HOOK[0] = self._named_nth
             self.frames = []
             self.depth = 0
@@ -298,7 +306,9 @@ class Interp:
         if h is not None:
             return h.fn(self, [v], {})
         if v.kind == "effect":
-            self.event("await:" + v.name, [v])
+            ev = self.event("await:" + v.name, [v])
+            if getattr(self, "on_effect", None) is not None:
+                self.on_effect(ev)
             per = (v.spec or {}).get("__await__") or {}
             ret = per.get("returns")
             return self.make_symbolic(ret, "awaited") if ret is not None else None
@@ -419,6 +429,26 @@ class Interp:
             raise PathAbort("assumption contradicts the path condition")
 
     # -- module / global resolution ------------------------------------------------------------------------
+    def _reset_module_state(self):
+        """Every path starts from freshly initialised modules: module-level values that can be mutated (containers, instances such as
+        default_serializer, memo tables) are dropped from the per-module cache and re-evaluated on first use; only immutable values,
+        classes, functions and modules are kept.  Without this, what one path writes into a module-level dict would be seen by the
+        next path (an unsound state leak between paths)."""
+        from .values import Builtin as _B, BuiltinClass as _BC, ModuleVal as _MV, Opaque as _Op
+
+        def immutable(v, depth=0):
+            if v is None or isinstance(v, (bool, int, float, str, bytes, ClassInfo, ModuleInfo, FuncVal, _B, _BC, _MV, _Op, frozenset)):
+                return True
+            if isinstance(v, tuple) and depth < 3:
+                return all(immutable(x, depth + 1) for x in v)
+            return False
+        for m in list(self.src.modules.values()):
+            if m is None or not m.globals_cache:
+                continue
+            for k in [k for k, v in m.globals_cache.items() if v is not _PENDING and not immutable(v)]:
+                if k in m.assigns:            # re-creatable from its module-level assignment
+                    del m.globals_cache[k]
+
     def module_global(self, mod: ModuleInfo, name: str):
         cache = mod.globals_cache
         if name in cache:
